@@ -58,6 +58,21 @@ class Check(PropCheck):
                     for b in range(a + 1, sz):
                         ops.append('dist %d %d' % (a, b))
             cases.append(Case('c%d' % j, ops, meta))
+        # value classes: every length subnormal / a power of two far from 1 / zero (exact in binary64, so compared bit for bit): a present
+        # length must never be mistaken for an absent one, whatever its magnitude
+        for j in range(30 if self.tier == 'quick' else 400):
+            n = rng.randint(2, 9)
+            t = gen.rand_tree(rng, n, 'exact', p_multi=rng.choice([0, 0.4]), p_unary=rng.choice([0, 0.15]), internal_names=0.3)
+            unit = rng.choice([5e-324, 5e-324, 2.0 ** -1060, 2.0 ** -1022, 2.0 ** -500, 2.0 ** 900])
+            for i, nd in enumerate(t.nodes()):
+                if i > 0:
+                    nd.length = unit * rng.randint(0 if rng.random() < 0.2 else 1, 7)
+            ops = ['new'] + gen.build_ops(t) + ['dump', 'dm', 'dmr', 'get_leaves']
+            sz = len(t.nodes()) + 1
+            for a in range(sz):
+                for b in range(a + 1, sz):
+                    ops.append('dist %d %d' % (a, b))
+            cases.append(Case('v%d' % j, ops, {'tol': None, 'mode': 'exact'}))
         for j in range(40 if self.tier == 'quick' else 600):
             n = rng.randint(3, 10)
             t = gen.rand_tree(rng, n, 'exact', p_multi=0.3, p_unary=0.1, internal_names=0.3)
